@@ -201,14 +201,14 @@ def check_case(lines, obs, want=("C11", "C12")):
             faults = [f for f in faults if f != "none"]
             if len(kinds) > 1:
                 # several faults may mask one another: an opinion only where they cannot
-                hard = "extra_valcol" in kinds or (kinds.count("dup_and_drop") == 1 and set(kinds) <= {"dup_and_drop", "blank"}) or any(f.startswith("drop_col:") and len(dmap[f.split(":")[1]][3]) > 1 for f in faults)
+                hard = "extra_valcol" in kinds or "extra_textcol" in kinds or (kinds.count("dup_and_drop") == 1 and set(kinds) <= {"dup_and_drop", "blank"}) or any(f.startswith("drop_col:") and len(dmap[f.split(":")[1]][3]) > 1 for f in faults)
                 if not hard and not set(kinds) <= {"drop_row", "blank"}:
                     continue
             for f in faults:
                 k = f.split(":")[0]
                 if k in ("dup_row", "dup_and_drop"):
                     demand_err = "a label combination occurs twice"
-                elif k == "extra_valcol":
+                elif k in ("extra_valcol", "extra_textcol"):
                     demand_err = "several value columns that match no dimension"
                 elif k == "drop_col":
                     dn = f.split(":")[1]
